@@ -125,17 +125,18 @@ def rule_hashlen(ctx):
     n = 0
     for name in ('scripthash_to_hashX', 'assert_tx_hash'):
         f = ctx.func('sess', name)
-        dec = [s for s in f.own_nodes() if isinstance(s, ast.Assign) and isinstance(s.value, ast.Call) and norm(s.value.func) == 'hex_str_to_hash'
-               and norm(s.value.args[0]) == f.params[0]]
-        rets = [r for r in f.own_nodes() if isinstance(r, ast.Return) and r.value is not None]
-        ok, why = False, 'decode / return not recognised'
-        if len(dec) == 1 and len(rets) == 1:
-            dv = norm(dec[0].targets[0])
-            conds = pr.control_conditions(rets[0], f.node)
-            good = [c for c in conds if c[1] and norm(c[0]) in (f'len({dv}) == 32', f'32 == len({dv})')]
-            uses_dec = dv in q.names_in(rets[0].value)
-            ok = len(good) == 1 and uses_dec
-            why = f'returns `{norm(rets[0].value)}` under {[norm(c[0]) for c in conds]}'
+        # per return path, locals expressed in the input: a value is returned only on a path that decided
+        # len(hex_str_to_hash(<argument>)) == 32, and the value is made of those decoded bytes
+        from .. import paths as P
+        dtxt = f'hex_str_to_hash({f.params[0]})'
+        rps = [p_ for p_ in P.returns(f.node) if not (isinstance(p_.value, ast.Constant) and p_.value.value is None)]
+        ok, why = bool(rps), 'no value is returned'
+        for p_ in rps:
+            tested = P.decided(ctx, f, p_, f'len({dtxt}) == 32')
+            uses = dtxt in norm(p_.value)
+            if tested is not True or not uses:
+                ok = False
+                why = f'returns `{norm(p_.value)}` under {p_.cond_texts()}'
         ctx.check(ok, 'C16.HASHLEN', ctx.key(f, None, 'decoded length'),
                   'the value is accepted only if the decoded bytes are exactly 32 long',
                   f'{name} does not test the length of the *decoded* bytes ({why}): hex text with embedded whitespace decodes to a shorter '
